@@ -1,4 +1,4 @@
-"""PX1-PX5: resource and critical-section discipline of the compiled quoter's writer (C19, C20)."""
+"""PX1-PX8: resource, bounds and critical-section discipline of the compiled quoter's writer and tables (C19, C20)."""
 from __future__ import annotations
 
 import ast
@@ -206,6 +206,17 @@ def _px_failures(ctx: Ctx, model: Model, leaf_sets_error: bool):
                    "succeed and the call returns a result with characters missing instead of raising MemoryError", where(f, e.node),
                    sample="tested (< 0) or returned")
             raises_on.append(e)
+        if f.name in fallible:
+            # ... and a failure that was detected is handed on: the function's own result on that path is negative
+            for e in raises_on:
+                for x, v, node in r.returns:
+                    if truth(("cmp", "Lt", e.value, ("const", 0)), x.facts) is not True:
+                        continue
+                    ctx.instance(r6)
+                    neg = v == e.value or (v[0] == "const" and isinstance(v[1], int) and not isinstance(v[1], bool) and v[1] < 0)
+                    ctx.ob(r6, f.qual, f"return {show(v)[:30]} after a failed {show(e.value)[:50]}", neg,
+                           "a failed write is detected but the function reports success: the caller goes on with an exception set "
+                           "and characters missing", where(f, node), sample="return -1")
         if f.name in fallible or not raises_on:
             continue
         # the chain ends here: every failing branch must raise
@@ -284,3 +295,114 @@ def px5(ctx: Ctx):
                 problems.append(f"Python-object variable `{name}: {ty}`")
         ctx.ob(rule, q, "critical section of the static buffer", not problems,
                "; ".join(problems), where(fi, fi.node), sample="only C-level operations")
+
+
+def px8(ctx: Ctx):
+    """PX8: the fixed-size C arrays are never indexed past their declared size. (a) at every call of the bit-table helpers
+    (`bit_at` / `set_bit`, whatever they are called: the cdef functions that index their array parameter by a shift of
+    their integer parameter) the unit is bounded on the path and the byte it selects lies inside the array that is passed;
+    (b) every store into a local C array is preceded by a bound on the index (assert or test) that is within its size."""
+    from ..fold import CannotFold, Folder
+    from .quoter_pyx import interval, module_result
+    model = ctx.model
+    model.load_pyx()
+    rule = "PX8"
+    ctx.rule(rule, floor=6, what="fixed-size C arrays (bit tables, decode buffer) are indexed inside their declared size")
+    mi = model.module(MOD)
+    dims = getattr(mi.tree, "_cy", {}).get("array_dims", {})
+    funcs = list(model.all_funcs(("pyx",), helpers=True))
+    # the bit-table helpers: (array parameter, unit parameter, byte-index expression)
+    helpers = {}
+    for f in funcs:
+        meta = getattr(f.node, "_cy", {})
+        arr = [p for p, ty in meta.get("argtypes", {}).items() if ty.endswith("[]") or ty.endswith("*")]
+        if len(arr) != 1 or len(f.params) != 2:
+            continue
+        r = analyze(model, f)
+        idx = [e.index for e in r.events if e.kind in ("sub", "store_sub") and getattr(e, "base", None) == ("param", arr[0])]
+        unit = [p for p in f.params if p != arr[0]][0]
+        if idx and all(("param", unit) in walk(i) for i in idx):
+            helpers[f.name] = (f.params.index(arr[0]), f.params.index(unit), unit, idx)
+    if not helpers:
+        raise AnalysisError("PX8: no bit-table helper found (anchor vanished)")
+
+    def size_of(t, f):
+        if t[0] == "global" and t[2] in dims.get("<module>", {}):
+            return dims["<module>"][t[2]]
+        if t[0] == "attr" and t[1] == ("param", "self") and f is not None and f.cls and t[2] in dims.get(f.cls, {}):
+            return dims[f.cls][t[2]]
+        if t[0] == "phi" and t[2] in dims.get("<module>", {}):      # the array name inside a module-level loop
+            return dims["<module>"][t[2]]
+        return None
+
+    def upper(x, facts):
+        best = None
+        for cand in (x, ("call", ("builtin", "ord"), (x,), ())):
+            l, h = interval(facts, cand, 0, 1 << 62)
+            if h < (1 << 62):
+                best = h if best is None else min(best, h)
+        if best is None:
+            # an element of range(n)
+            for t in walk(x):
+                if t[0] == "elem":
+                    try:
+                        dom = Folder(model).fold(t[1])
+                        if x == t:
+                            return max(dom)
+                    except (CannotFold, ValueError, TypeError):
+                        pass
+        return best
+
+    results = [(None, module_result(model, MOD))] + [(f, analyze(model, f)) for f in funcs]
+    seen = set()
+    for f, r in results:
+        for e in r.by_kind("call"):
+            name = callee_name(e.value)
+            if name not in helpers or id(e.node) in seen:
+                continue
+            ai, ui, unit, idxs = helpers[name]
+            if len(e.args) < 2:
+                continue
+            seen.add(id(e.node))
+            n = size_of(e.args[ai], f)
+            if n is None:
+                raise AnalysisError(f"PX8: size of the array passed to {name} is not declared with a literal dimension: {show(e.args[ai])}")
+            ctx.instance(rule)
+            hi = upper(e.args[ui], e.state.facts)
+            fn = f.qual if f is not None else f"{MOD}.<module>"
+            if hi is None:
+                ctx.ob(rule, fn, show(e.value)[:70], False,
+                       f"the unit passed to {name} is not bounded on this path: a code point above {n * 8 - 1} indexes past the "
+                       f"{n}-byte table", where(f, e.node) if f is not None else f"yarl/_quoting_c.pyx:{getattr(e.node, 'lineno', 0)}")
+                continue
+            try:
+                worst = max(Folder(model, {("param", unit): hi}).fold(i) for i in idxs)
+            except CannotFold as ex:
+                raise AnalysisError(f"PX8: byte index of {name} cannot be folded: {ex}")
+            ctx.ob(rule, fn, show(e.value)[:70], worst < n,
+                   f"a unit up to {hi} selects byte {worst} of a table declared with {n} byte(s)",
+                   where(f, e.node) if f is not None else f"yarl/_quoting_c.pyx:{getattr(e.node, 'lineno', 0)}",
+                   sample=f"unit <= {hi}, byte {worst} < {n}")
+    # (b) local arrays
+    for f, r in results:
+        if f is None:
+            continue
+        local = getattr(f.node, "_cy", {}).get("array_dims", {})
+        for e in r.events:
+            if e.kind != "store_sub":
+                continue
+            base = e.base
+            while base[0] in ("mut", "phi") and base[0] == "mut":
+                base = base[1]
+            nm = base[1] if base[0] == "local" else (base[2] if base[0] == "phi" else None)
+            if nm not in local or id(e.node) in seen:
+                continue
+            seen.add(id(e.node))
+            ctx.instance(rule)
+            if e.index[0] == "const" and isinstance(e.index[1], int):
+                hi = e.index[1]
+            else:
+                lo, hi = interval(e.state.facts, e.index, 0, 1 << 62)
+            ctx.ob(rule, f.qual, f"{nm}[{show(e.index)[:30]}] = ...", hi < local[nm],
+                   f"store into the {local[nm]}-element local array `{nm}` at an index only known to be <= "
+                   f"{hi if hi < (1 << 62) else 'unbounded'}", where(f, e.node), sample=f"index <= {hi} < {local[nm]}")
